@@ -134,6 +134,38 @@ theorem calc_autocorr_length {σ : Type} (step : σ → σ) (n : σ → Nat) (vi
     (calcAutocorr step n view mapper T f s0).length = T / f := by
   rw [calc_autocorr_samples step n view mapper hf, autocorr_length]; simp
 
+/-! ### spin products are literal list products -/
+
+/-- the order in which the variables of a product are listed does not matter -/
+theorem spinProd_perm (state : List Bool) {a b : List Nat} (h : a.Perm b) : spinProd state a = spinProd state b := by
+  induction h with
+  | nil => rfl
+  | cons x _ ih => rw [spinProd_cons, spinProd_cons, ih]
+  | swap x y l => rw [spinProd_cons, spinProd_cons, spinProd_cons, spinProd_cons]; ring
+  | trans _ _ ih1 ih2 => rw [ih1, ih2]
+
+/-- every listed index multiplies once, so a pair of equal indices cancels (s² = 1): removing the pair leaves the
+product unchanged — and removing a single copy (what a `dedup` does) does not, see the example below -/
+theorem spinProd_remove_pair (state : List Bool) (a b c : List Nat) (v : Nat) :
+    spinProd state (a ++ v :: b ++ v :: c) = spinProd state (a ++ b ++ c) := by
+  have e : a ++ v :: b ++ v :: c = a ++ ([v] ++ b) ++ ([v] ++ c) := by simp
+  rw [e]
+  simp only [spinProd_append, spinProd_cons, spinProd_nil]
+  have := spinVal_sq (state.getD v false)
+  calc spinProd state a * (spinVal (state.getD v false) * 1 * spinProd state b) *
+          (spinVal (state.getD v false) * 1 * spinProd state c)
+      = (spinVal (state.getD v false) * spinVal (state.getD v false)) *
+          (spinProd state a * spinProd state b * spinProd state c) := by ring
+    _ = spinProd state a * spinProd state b * spinProd state c := by rw [this]; ring
+
+/-- the observable row of the spin-product helper is the list of these literal products -/
+theorem prodMapper_literal (prods : List (List Nat)) (state : List Bool) :
+    prodMapper prods state = prods.map (spinProd state) := prodMapper_eq prods state
+
+/-- `[0,1,1,2]` is `s0·s2`, not `s0·s1·s2`: dropping one of two equal indices changes the observable -/
+example : spinProd [true, false, true] [0, 1, 1, 2] = 1 ∧ spinProd [true, false, true] [0, 1, 2] = -1 := by
+  constructor <;> norm_num [spinProd, spinVal]
+
 /-! ### non-vacuity -/
 
 def demo : List (List Rat) := [[1, 2], [-1, 0], [1, 5]]
